@@ -311,6 +311,16 @@ def sweep_nf(ctx, chk, rule, qual, fields, kernel_meth, domain_is_param):
                       expected="max_diff = 0 at the start of every sweep", found=show(fo.init), construct="%s change reset" % f.short)
         return None
     whole = F.whole or strip_perm(F.source) != F.source
+    if F.filter != TRUE and whole and not F.has_break and not F.has_return and any(x[0] in ("acc", "res") for x in _subterms(F.filter)):
+        # which states are skipped is decided by marks that the sweeps themselves keep (settled / pending): a work-list design;
+        # whether a skipped state could still change is not decided here
+        wl = _worklist_sweep_flaw(F)
+        if wl:
+            chk.violation(rule, fwhere, wl, expected="a state is taken off the worklist before (not after) the states that depend on it are put on it",
+                          found=norm_stmt(F.node), construct="%s worklist sweep order" % f.short)
+        else:
+            chk.undecided(rule, fwhere, "the sweep skips states by marks kept between sweeps (`%s`): whether a skipped state can still change is not decided" % show(F.filter)[:120])
+        return None
     if F.filter != TRUE or not whole or F.has_break or F.has_return:
         chk.violation(rule, fwhere, "the sweep skips states (filter `%s`%s%s)" % (show(F.filter), ", slice" if not F.whole else "", ", early exit" if F.has_break or F.has_return else ""),
                       expected="every state of the domain is updated in every sweep", found=norm_stmt(F.node), construct="%s sweep partial" % f.short)
